@@ -22,8 +22,10 @@ RULE = ("(a) exhaustive sweeps over n_orbs = 1..4 (5 thorough) x ordering x enco
         "(b) Hypothesis-generated molecules (H2, HeH, H3, H4 chain/ring/3-D, He2, LiH, H2O/BeH2 fragments; RHF/ROHF/UHF; frozen orbitals; <= 8 qubits): commutators "
         "with the molecular Hamiltonian at fermion level and for 4 encodings x 2 orderings; (c) generated penalty cases (operator, attainable "
         "and unattainable targets, weights incl. 0/negative in combined_penalty, both orderings, every encoding); (d) generated (ansatz "
-        "configuration, theta) for UCCSD closed/ROHF/UHF, UpCCGSD k=1..3, UCCGD, UCC1/UCC3, pUCCD, ADAPT with the UCCGSD fermionic pool under "
-        "JW in both orderings. Non-trivial: n_orbs >= 2 (a, c); >= 2 active orbitals (b); theta with >= 2 non-zero entries (d). Distinct = "
+        "configuration, short parameter history: build_circuit(theta1) with exact zeros placed per layer/step, then 1-3 update_var_params "
+        "calls - same vector, same zeros with other values, zeros moved, all non-zero, free recipe - with the conservation law asserted after "
+        "EVERY step) for UCCSD closed/ROHF/UHF, UpCCGSD k=1..3, UCCGD, UCC1/UCC3, pUCCD, ADAPT with the UCCGSD fermionic pool under "
+        "JW in both orderings. Non-trivial: n_orbs >= 2 (a, c); >= 2 active orbitals (b); some vector of the history with >= 2 non-zero entries (d). Distinct = "
         "distinct canonical JSON of the case. Only part (a) is exhaustive (within its bound); (b)-(d) are sampled.")
 ASSUMPTIONS = ["numpy/scipy linear algebra", "Fock-space ladder matrices and N/Sz/S^2 reference operators of vlib/refops.py (self-tested: CAR, S(S+1) spectrum)",
                "encoded determinant |x> := prod_p enc(a_p^dagger)^{x_p} |0..0> built from Tangelo's own encoding of single creation operators "
@@ -501,11 +503,54 @@ def ansatz_configs(tier):
 
 @st.composite
 def ansatz_cases(draw, cfgs):
+    """(configuration, build recipe with exact zeros placed per layer/step, 1-3 update specs). Plain data:
+    "lz": [[layer, pos], ...] entries forced to 0.0 at build (index = layer * n_per_step + pos for UpCCGSD, spread otherwise);
+    update spec kinds: "same" (p' == p), "same-zeros" (same zero pattern, other values), "move-zeros" (pattern rotated by "s"),
+    "all-nonzero", "recipe" (free recipe relative to the current vector)."""
     cfg = draw(st.sampled_from(cfgs))
-    case = {"cfg": cfg, "th": draw(H.recipes())}
+    case = {"cfg": cfg, "th": draw(H.recipes()),
+            "lz": draw(st.lists(st.tuples(st.integers(0, 3), st.integers(0, 40)).map(list), max_size=3))}
+    ups = []
+    for _ in range(draw(st.integers(1, 3))):
+        kind = draw(st.sampled_from(["same", "same-zeros", "same-zeros", "move-zeros", "all-nonzero", "recipe"]))
+        u = {"k": kind, "vals": draw(st.lists(H.values(), min_size=1, max_size=5)), "drift": draw(st.sampled_from([0.013, -0.07, 0.211]))}
+        if kind == "move-zeros":
+            u["s"] = draw(st.integers(1, 11))
+        if kind == "recipe":
+            u["th"] = draw(H.recipes())
+        ups.append(u)
+    case["upd"] = ups
     if cfg["a"] == "ADAPT":
         case["ops"] = draw(st.lists(st.integers(0, 199), min_size=2, max_size=6))
     return case
+
+
+def place_zeros(th, lz, cfg, obj):
+    n = len(th)
+    if not n:
+        return th
+    per = getattr(obj, "n_var_params_per_step", None) if cfg["a"] == "UpCCGSD" else None
+    for layer, pos in lz:
+        i = (layer % cfg["k"]) * per + pos % per if per else (layer * 7 + pos) % n
+        th[i] = 0.0
+    return th
+
+
+def next_theta(u, cur):
+    """Update spec -> explicit vector, relative to the current vector `cur`."""
+    n = len(cur)
+    fill = [(u["vals"][i % len(u["vals"])] or 0.37) + u["drift"] * i for i in range(n)]
+    fill = [x if x != 0.0 else 0.37 for x in fill]                      # guaranteed non-zero replacement values
+    k = u["k"]
+    if k == "same":
+        return list(cur)
+    if k == "same-zeros":
+        return [0.0 if c == 0.0 else f for c, f in zip(cur, fill)]
+    if k == "move-zeros":
+        return [0.0 if cur[(i + u["s"]) % n] == 0.0 else f for i, f in enumerate(fill)] if n else []
+    if k == "all-nonzero":
+        return fill
+    return H.expand(u["th"], n, cur)
 
 
 def run_ansatz_case(case):
@@ -513,8 +558,6 @@ def run_ansatz_case(case):
     a = cfg["a"]
     with H.quiet():
         obj = H.make(cfg, case.get("ops", ()))
-        th = H.expand(case["th"], obj.n_var_params, None)
-        obj.build_circuit(list(th))
     if a == "RUCC":
         m, utd, ne, sz_t = 4, True, 2, 0.0                 # reference |1010> = one alpha, one beta electron with spin-up orbitals first
     elif a == "pUCCD":
@@ -523,35 +566,63 @@ def run_ansatz_case(case):
     else:
         mol = H.mol(cfg["mol"])
         m, utd, ne, sz_t = mol.n_active_sos, cfg["utd"], mol.n_active_electrons, mol.active_spin / 2
-    n = max(obj.circuit.width, m)
-    psi = H.state_of(obj.circuit, n)
-    prob = np.abs(psi) ** 2
-    idx = np.arange(2 ** n) >> (n - m)                     # occupation of the first m qubits (mode p <-> qubit p under JW)
-    extra = np.arange(2 ** n) & ((1 << (n - m)) - 1)
-    if prob[extra != 0].sum() > 1e-16:
-        raise Fail(f"{a}: the circuit populates qubits beyond the {m}-qubit register", sig=f"ansatz:{a}:register")
     if utd is None:
         pop = np.array([bin(x).count("1") for x in range(2 ** m)], dtype=float)
         szv = None
     else:
         pop, szv = det_tables(m, utd)
-    leak_n = math.sqrt(float(np.sum(prob * (pop[idx] - ne) ** 2)))
-    tag = a + (f":{cfg['mol']}" if cfg.get("mol") else "")
-    if leak_n > 1e-8:
-        raise Fail(f"{a} {cfg}: ||(N - {ne}) psi|| = {leak_n} for theta = {th}", sig=f"ansatz:{a}:N-not-conserved", theta=th)
-    if szv is not None:
-        leak_s = math.sqrt(float(np.sum(prob * (szv[idx] - sz_t) ** 2)))
-        if leak_s > 1e-8:
-            raise Fail(f"{a} {cfg}: ||(Sz - {sz_t}) psi|| = {leak_s} for theta = {th}", sig=f"ansatz:{a}:Sz-not-conserved", theta=th)
-    nz = sum(1 for x in th if x != 0.0)
-    labels = {a, f"mol={cfg.get('mol')}", f"utd={cfg.get('utd')}", "superposition" if np.sum(prob > 1e-6) >= 2 else "basis-state"}
+    labels = {a, f"mol={cfg.get('mol')}", f"utd={cfg.get('utd')}"}
     if a == "UpCCGSD":
         labels.add(f"k={cfg['k']}")
     if a == "ADAPT":
         labels.add(f"adapt-ops={len(case['ops'])}")
-    if any(abs(x) > 2 * math.pi for x in th):
-        labels.add("theta>2pi")
-    return nz >= 2, labels
+
+    def conserved(th, how):
+        n = max(obj.circuit.width, m)
+        psi = H.state_of(obj.circuit, n)
+        prob = np.abs(psi) ** 2
+        idx = np.arange(2 ** n) >> (n - m)                 # occupation of the first m qubits (mode p <-> qubit p under JW)
+        extra = np.arange(2 ** n) & ((1 << (n - m)) - 1)
+        if prob[extra != 0].sum() > 1e-16:
+            raise Fail(f"{a}: the circuit populates qubits beyond the {m}-qubit register", sig=f"ansatz:{a}:register")
+        leak_n = math.sqrt(float(np.sum(prob * (pop[idx] - ne) ** 2)))
+        if leak_n > 1e-8:
+            raise Fail(f"{a} {cfg}: ||(N - {ne}) psi|| = {leak_n} after {how}, theta = {th}", sig=f"ansatz:{a}:N-not-conserved", theta=th, after=how)
+        if szv is not None:
+            leak_s = math.sqrt(float(np.sum(prob * (szv[idx] - sz_t) ** 2)))
+            if leak_s > 1e-8:
+                raise Fail(f"{a} {cfg}: ||(Sz - {sz_t}) psi|| = {leak_s} after {how}, theta = {th}", sig=f"ansatz:{a}:Sz-not-conserved", theta=th,
+                           after=how)
+        labels.add("superposition" if np.sum(prob > 1e-6) >= 2 else "basis-state")
+        if any(abs(x) > 2 * math.pi for x in th):
+            labels.add("theta>2pi")
+
+    th = place_zeros(H.expand(case["th"], obj.n_var_params, None), case.get("lz", []), cfg, obj)
+    with H.quiet():
+        obj.build_circuit(list(th))
+    conserved(th, "build")
+    per = getattr(obj, "n_var_params_per_step", None) if a == "UpCCGSD" else None
+    if any(x == 0.0 for x in th) and not all(x == 0.0 for x in th):
+        labels.add("zeros-at-build")
+        if per and any(x == 0.0 for x in th[per:]) and any(x != 0.0 for x in th[per:]):
+            labels.add("zeros-at-build-in-step>=1")
+    nz_max = sum(1 for x in th if x != 0.0)
+    for j, u in enumerate(case.get("upd", [])):
+        new = next_theta(u, th)
+        same_pattern = [x == 0.0 for x in new] == [x == 0.0 for x in th]
+        with H.quiet():
+            obj.update_var_params(list(new))
+        labels.add(f"update:{u['k']}")
+        if same_pattern and any(x == 0.0 for x in new) and any(x != 0.0 for x in new):
+            labels.add("update-keeps-partial-zeros")
+            if per and any(x == 0.0 for x in new[per:]) and any(x != 0.0 for x in new[per:]):
+                labels.add("update-keeps-zeros-in-step>=1")
+        elif not same_pattern:
+            labels.add("update-changes-zero-pattern")
+        th = new
+        conserved(th, f"update#{j + 1}:{u['k']}")
+        nz_max = max(nz_max, sum(1 for x in th if x != 0.0))
+    return nz_max >= 2, labels
 
 
 @part("ansatz", quick=200, thorough=20000)
